@@ -1,8 +1,8 @@
 (* Pinned statements for C12: compiled on every check run. A statement weakened in Props/ fails here. *)
 From Coq Require Import String List.
 From TS Require Import Model.Str Model.Outcome Model.Unicode Model.Types Model.Parse Model.Lang.Common Model.Lang.Decl
-                       Model.Lang.Swift Model.Lang.Scala Model.Lang.Go Model.Lang.Kotlin Spec.C12Spec Proofs.C12Obs.
-From TS Require Proofs.C12 Proofs.C12_Swift Proofs.C12_Go Proofs.C12_Kotlin.
+                       Model.Lang.Swift Model.Lang.Scala Model.Lang.Go Model.Lang.Kotlin Model.Lang.Python Spec.C12Spec Proofs.C12Obs.
+From TS Require Proofs.C12 Proofs.C12_Swift Proofs.C12_Go Proofs.C12_Kotlin Proofs.C12_Python.
 Import ListNotations.
 From TS Require Props.C12.
 
@@ -49,3 +49,30 @@ Goal c12_kt_known (Proofs.C12.c12_kt_cfg (lit "com.p")) Proofs.C12.c12_kt_inline
   c12_good [lit "Serializable"; lit "JvmInline"] [lit "Serializable"; lit "SerialName"] = false.
 Proof. exact Props.C12.C12_kotlin_jvminline_refuted. Qed.
 Print Assumptions Props.C12.C12_kotlin_jvminline_refuted.
+Goal forall (cfg : py_config) (generics : list str) (t : rtype),
+    Forall (fun id => ~ In id c12_py_reserved) (c12_rtype_ids t) ->
+    forall (s : py_state) (x : texp) (s' : py_state),
+      py_texp cfg generics t s = Ok (x, s') ->
+      incl (c12_py_imported s) (c12_py_imported s') /\
+      (forall u, In u (c12_py_tnames x) -> In u c12_py_fixed -> In u (c12_py_imported s')).
+Proof. exact Props.C12.C12_python_format_type. Qed.
+Print Assumptions Props.C12.C12_python_format_type.
+Goal forall (uc : unicode) (cfg : py_config) (pd : parsed) (ds : list py_decl) (st : py_state),
+    py_decls uc cfg pd = Ok (ds, st) -> c12_py_dom cfg (items_of pd) = true ->
+    forall u, In u (flat_map (c12_py_decl_uses (c12_py_tv_vocab (items_of pd))) ds) ->
+      In u (c12_py_tv_vocab (items_of pd)) \/ In u Proofs.C12_Python.c12_py_fn_names \/
+      In u (c12_py_defs (py_type_variables st) (c12_py_fns st) (c12_py_imported st)).
+Proof. exact Props.C12.C12_python_body_partial. Qed.
+Print Assumptions Props.C12.C12_python_body_partial.
+Goal c12_py_known Proofs.C12.c12_py_cfg0 Proofs.C12.c12_py_alias_pd = Some "C12-python-alias-typevar"%string /\
+  c12_py_dom Proofs.C12.c12_py_cfg0 (items_of Proofs.C12.c12_py_alias_pd) = true /\
+  exists uses defs, c12_py_observe uc_exec Proofs.C12.c12_py_cfg0 Proofs.C12.c12_py_alias_pd = Ok (uses, defs) /\
+                    In (lit "T") uses /\ ~ In (lit "T") defs /\ c12_good uses defs = false.
+Proof. exact Props.C12.C12_python_alias_typevar_refuted. Qed.
+Print Assumptions Props.C12.C12_python_alias_typevar_refuted.
+Goal c12_py_known Proofs.C12.c12_py_cfg0 Proofs.C12.c12_py_default_pd = Some "C12-python-default-translation"%string /\
+  c12_py_dom Proofs.C12.c12_py_cfg0 (items_of Proofs.C12.c12_py_default_pd) = true /\
+  exists uses defs, c12_py_observe uc_exec Proofs.C12.c12_py_cfg0 Proofs.C12.c12_py_default_pd = Ok (uses, defs) /\
+                    In (lit "parse_rfc3339") uses /\ ~ In (lit "parse_rfc3339") defs /\ c12_good uses defs = false.
+Proof. exact Props.C12.C12_python_default_translation_refuted. Qed.
+Print Assumptions Props.C12.C12_python_default_translation_refuted.
